@@ -167,11 +167,14 @@ fn main() {
         "shard" => cmd_shard(&args),
         "replay" => cmd_replay(&args),
         "c13-child" => props::c13::child_main(&args),
+        "miri" => props::miri::main(&args),
         _ => {
             eprintln!("usage: rlmon check <Cnn> [--tier quick|thorough] [--seed N] [--shards N] | replay <file>");
             2
         }
     };
+    // under `-Zmiri-many-seeds` the interpreted runs share one scratch root: leave it to each run's own clean-up
+    #[cfg(not(miri))]
     util::cleanup_scratch();
     std::process::exit(code);
 }
@@ -257,8 +260,88 @@ fn cmd_check(args: &[String]) -> i32 {
         }
     }
     util::remove_dir(&tmp);
+    if tier == Tier::Thorough && (prop == "C07" || prop == "C12") && std::env::var("RLMON_NO_MIRI").is_err() {
+        run_miri(&prop, seed, &mut merged);
+    }
     let wall = util::now_s() - t0;
     frame::finish(meta, tier, seed, &mut merged, wall, failures)
+}
+
+/// Supplementary UB / data-race detection: the same oracles on a reduced workload under Miri.
+/// Miri being unavailable is recorded in the evidence and never changes the verdict; a Miri
+/// error report (undefined behaviour, data race) or an oracle failure under Miri is a violation.
+fn run_miri(prop: &str, seed: u64, merged: &mut ShardOut) {
+    let what = if prop == "C07" { "c07" } else { "c12" };
+    let harness = format!("{}/harness", frame::verif_root());
+    let jobs: Vec<(u64, u64, Option<&str>)> = if prop == "C07" {
+        // 3 histories x 8 Miri scheduler seeds each
+        (0..3).map(|i| (seed.wrapping_mul(31).wrapping_add(i), 14, Some("-Zmiri-many-seeds=0..8"))).collect()
+    } else {
+        (0..8).map(|i| (seed.wrapping_mul(31).wrapping_add(i), 100, None)).collect()
+    };
+    let t0 = util::now_s();
+    let mut kids = vec![];
+    for (js, n, extra) in &jobs {
+        let flags = format!("-Zmiri-disable-isolation {}", extra.unwrap_or(""));
+        let c = std::process::Command::new("cargo")
+            .current_dir(&harness)
+            .args(["+nightly", "miri", "run", "--offline", "--", "miri", what, &js.to_string(), &n.to_string()])
+            .env("MIRIFLAGS", flags.trim())
+            .env("CARGO_NET_OFFLINE", "true")
+            .stdout(std::process::Stdio::piped())
+            .stderr(std::process::Stdio::piped())
+            .spawn();
+        kids.push((*js, c));
+    }
+    for (js, c) in kids {
+        let Ok(c) = c else {
+            merged.tag("miri", "unavailable: cargo +nightly miri could not be started");
+            continue;
+        };
+        // wait with a watchdog
+        let pid = c.id();
+        let handle = std::thread::spawn(move || c.wait_with_output());
+        let mut killed = false;
+        while !handle.is_finished() {
+            if util::now_s() - t0 > 900.0 && !killed {
+                unsafe { libc::kill(pid as i32, libc::SIGKILL) };
+                killed = true;
+            }
+            std::thread::sleep(std::time::Duration::from_millis(100));
+        }
+        let Ok(Ok(out)) = handle.join() else {
+            merged.tag("miri", "unavailable: wait failed");
+            continue;
+        };
+        let so = String::from_utf8_lossy(&out.stdout).to_string();
+        let se = String::from_utf8_lossy(&out.stderr).to_string();
+        if killed {
+            merged.tag("miri", "a Miri job hit the 15 min watchdog (not counted)");
+            continue;
+        }
+        let oks: Vec<&str> = so.lines().filter(|l| l.starts_with("MIRI-OK")).collect();
+        for l in &oks {
+            merged.count("miri_runs_ok", 1);
+            if let Some(n) = l.split("observations=").nth(1).and_then(|x| x.trim().parse::<u64>().ok()) {
+                merged.count("miri_observations(decodes_or_concurrent_reads)", n);
+            }
+        }
+        let ub = se.lines().find(|l| l.contains("Undefined Behavior") || l.contains("Data race detected") || l.contains("error: unsupported operation") || l.contains("memory leaked"));
+        if let Some(l) = so.lines().find(|l| l.starts_with("MIRI-VIOL")) {
+            let sig = l.split(' ').nth(1).unwrap_or("miri").to_string();
+            merged.viol(frame::Viol { prop: prop.to_string(), sig, text: l.to_string(), replay: serde_json::json!({"kind": "miri", "what": what, "seed": js.to_string()}) });
+        } else if let Some(l) = ub {
+            if l.contains("unsupported operation") {
+                merged.tag("miri", &format!("unsupported operation under Miri (not counted): {}", l.trim()));
+            } else {
+                merged.viol(frame::Viol { prop: prop.to_string(), sig: format!("{}:miri:{}", prop, l.trim().chars().take(80).collect::<String>()), text: format!("Miri reported: {} (seed {})", l.trim(), js), replay: serde_json::json!({"kind": "miri", "what": what, "seed": js.to_string(), "stderr_tail": se.lines().rev().take(30).collect::<Vec<_>>()}) });
+            }
+        } else if oks.is_empty() {
+            let reason = se.lines().rev().find(|l| l.contains("error")).unwrap_or("no MIRI-OK line").to_string();
+            merged.tag("miri", &format!("unavailable: {}", reason.chars().take(160).collect::<String>()));
+        }
+    }
+    merged.tag("miri", &format!("ran {} job(s) for {} in {:.0}s", jobs.len(), what, util::now_s() - t0));
 }
 
 fn cmd_replay(args: &[String]) -> i32 {
